@@ -170,8 +170,11 @@ def gen_program(tape, feat):
                     st["self"] = tape.flag("rm_self", 1, 5)
                     st["ixs"] = [tape.draw("rm_ix", 8) for _j in range(tape.geometric("nrm", 3, 1, 2))]
                     st["stranger"] = tape.flag("rm_stranger", 1, 8)
+                # "spawn the workers and return" / "reap the sibling and return": the call and the caller's own completion
+                # fall in the same pass of the scheduler
+                st["then_ret"] = tape.flag("then_ret", 1, 4)
             steps.append(st)
-            if a in ("ret", "raise_", "kbint", "forever"):
+            if a in ("ret", "raise_", "kbint", "forever") or st.get("then_ret"):
                 break
         return steps
 
@@ -412,6 +415,10 @@ def _wake(run, nid, tyme):
             run.ev("extend_raise", nid, run.sid(sched), type(ex).__name__)
             raise
         run.ev("extend_return", nid, run.sid(sched), run.ids_of(sched.doers))
+        if step.get("then_ret"):
+            run.fault("extend_then_return_in_same_pass")
+            st.outcome = "ret"
+            return ("ret", True)
         return ("yield", step["y"])
     if act == "remove":
         sched = _resolve_target(run, nid, step)
@@ -444,6 +451,10 @@ def _wake(run, nid, tyme):
         run.ev("remove_call", nid, run.sid(sched), run.ids_of(arg), run.ids_of(sched.doers))
         sched.remove(arg)
         run.ev("remove_return", nid, run.sid(sched), run.ids_of(sched.doers))
+        if step.get("then_ret"):
+            run.fault("remove_then_return_in_same_pass")
+            st.outcome = "ret"
+            return ("ret", True)
         return ("yield", step["y"])
     raise HarnessError("unknown act %r" % (act,))
 
